@@ -1,34 +1,8 @@
 """C01 — persistent sending queue never loses an accepted request across crashes."""
-import json
 import os
 import vlib
 
 HERE = os.path.dirname(os.path.abspath(__file__))
-
-# Proposed known findings live next to this file until the integrator merges them into /verif/known_findings.json;
-# both sources are honoured.  An id that the global file already lists for C01 (with any status, e.g. fixed) is NOT
-# re-opened from here.
-_global_known = vlib.known_findings
-
-
-def _known(pid):
-    ks = list(_global_known(pid))
-    if pid != "C01":
-        return ks
-    try:
-        allg = json.load(open(os.path.join(vlib.VERIF, "known_findings.json"))).get("findings", [])
-    except Exception:
-        allg = []
-    have = {f.get("id") for f in allg if f.get("property") == "C01"} | {k.get("id") for k in ks}
-    p = os.path.join(HERE, "findings.json")
-    if os.path.exists(p):
-        for f in json.load(open(p)).get("findings", []):
-            if f.get("property") == pid and f.get("status", "open") == "open" and f.get("id") not in have:
-                ks.append(f)
-    return ks
-
-
-vlib.known_findings = _known
 
 
 class P(vlib.Prop):
@@ -83,5 +57,5 @@ class P(vlib.Prop):
         "each public queue call is atomic (pq.mu held); one incarnation is modelled as a sequential script; the hand-off event is placed at the return of Read (a death between the dequeue batch and the consumer is the death point 'before the next storage call')",
         "storage errors are modelled only for itemDispatchingFinish (a failing batch applies nothing)",
         "request bodies are 8-byte little-endian ids (the marshalled form of real requests is C08's business)",
-        "pq_at_least_once: block_on_overflow = false (otherwise refuted: known finding C01-RECOVERY-BLOCKS), every request fits into the empty queue (sizeof <= capacity), the drain incarnations do not die",
+        "pq_at_least_once: every request fits into the empty queue (sizeof <= capacity), the drain incarnations do not die",
     ]
